@@ -892,8 +892,10 @@ func (db *ContractDB) loadContractFile(path, pkg string) error {
 			for j < len(lines) && !isHeader(lines[j].text) {
 				j++
 			}
-			heads := expandBraces(l.text)
-			for _, h := range heads {
+			// an alternative written name=value binds %1 in the body lines to value for the
+			// contracts expanded from that alternative (per-type constants in a shared text)
+			heads, binds := expandBracesBound(l.text)
+			for hi, h := range heads {
 				before := len(db.FuncList)
 				if err := handle(h, l.ln); err != nil {
 					return err
@@ -902,7 +904,11 @@ func (db *ContractDB) loadContractFile(path, pkg string) error {
 					db.FuncList[len(db.FuncList)-1].Template = l.text
 				}
 				for _, b := range lines[i+1 : j] {
-					if err := handle(b.text, b.ln); err != nil {
+					bt := b.text
+					if binds[hi] != "" {
+						bt = strings.ReplaceAll(bt, "%1", binds[hi])
+					}
+					if err := handle(bt, b.ln); err != nil {
 						return err
 					}
 				}
@@ -916,6 +922,37 @@ func (db *ContractDB) loadContractFile(path, pkg string) error {
 		i++
 	}
 	return nil
+}
+
+// expandBracesBound is expandBraces with name=value alternatives: the head gets the name, the
+// value is returned alongside (the value of the first group that has one).
+func expandBracesBound(s string) (heads []string, binds []string) {
+	i := strings.Index(s, "{")
+	if i < 0 {
+		return []string{s}, []string{""}
+	}
+	j := strings.Index(s[i:], "}")
+	if j < 0 {
+		return []string{s}, []string{""}
+	}
+	j += i
+	for _, alt := range strings.Split(s[i+1:j], ",") {
+		alt = strings.TrimSpace(alt)
+		bind := ""
+		if k := strings.Index(alt, "="); k > 0 {
+			alt, bind = strings.TrimSpace(alt[:k]), strings.TrimSpace(alt[k+1:])
+		}
+		rh, rb := expandBracesBound(s[j+1:])
+		for n, rest := range rh {
+			heads = append(heads, s[:i]+alt+rest)
+			if bind != "" {
+				binds = append(binds, bind)
+			} else {
+				binds = append(binds, rb[n])
+			}
+		}
+	}
+	return heads, binds
 }
 
 // expandBraces expands every {a,b,c} group of s (cartesian product).
